@@ -125,6 +125,7 @@ func init() {
 			}
 			out = append(out, need(c, "blobs_verified_in_noasm_build", 200)...)
 			out = append(out, need(c, "source_tapes_with_deletions", 50)...)
+			out = append(out, need(c, "source_tapes_with_a_deleted_run_at_the_64Ki_tag_boundary", 20)...)
 			return out
 		},
 	}
